@@ -30,3 +30,41 @@ Example C02_alignment_example :
   parse_pairs str str ([s2l "a"; s2l "b"; s2l "c"], [s2l "1"; s2l "2"])
   = [(s2l "a", None); (s2l "b", Some (s2l "1")); (s2l "c", Some (s2l "2"))].
 Proof. vm_compute. reflexivity. Qed.
+
+(* ---- the class format as text: docstring + annotated assignments (Model/ClassFmt.v) ---------------------------------
+   emit_class writes the description and one ":cvar name: doc" line per attribute into the class docstring (tab-indented,
+   right-stripped: cdd/class_/emit.py + cdd/docstring/emit.py with purpose "class", indent_level 1) and one annotated
+   assignment per attribute into the body; parse_class runs the ReST scanner and parser over the docstring and lets the
+   body fill in typ and default.  For EVERY description and EVERY attribute list in the stated domain (one-line texts with
+   no colon and no blank at either end, distinct identifier names, each attribute typed and documented, at least one
+   attribute): every attribute comes back exactly once, under its own name, in its position, with its own description,
+   type and default -- present and absent defaults alike (an absent one stays absent, a present one stays on its owner). *)
+From CDD Require RestDoc ClassFmt ClassFmtProofs RestDocProofs RestDocIndentProofs.
+
+Theorem C02_class_text_roundtrip : forall (doc : str) (ps : list (str * ClassFmt.cparam)),
+  RestDocProofs.clean doc = true -> RestDocIndentProofs.one_line doc = true ->
+  forallb ClassFmtProofs.cparam_ok ps = true -> NoDup (map fst ps) -> ps <> [] ->
+  ClassFmt.parse_class (ClassFmt.emit_class doc ps) = (doc, ps).
+Proof. exact ClassFmtProofs.class_roundtrip. Qed.
+Print Assumptions C02_class_text_roundtrip.
+
+(* the emitted class docstring is exactly: newline + tab, description, blank line, the :cvar lines, tab-indented *)
+Theorem C02_class_docstring_canonical : forall (doc : str) (ps : list (str * ClassFmt.cparam)),
+  RestDocProofs.clean doc = true -> RestDocIndentProofs.one_line doc = true ->
+  forallb ClassFmtProofs.cparam_ok ps = true -> ps <> [] ->
+  ClassFmt.class_docstring doc ps
+  = ClassFmtProofs.crender ClassFmtProofs.C_HP [] ClassFmtProofs.C_HP ClassFmtProofs.C_HS doc (ClassFmtProofs.docs_of ps).
+Proof. exact ClassFmtProofs.class_docstring_is_crender. Qed.
+Print Assumptions C02_class_docstring_canonical.
+
+(* the hypotheses are satisfiable, and what the theorem says of a concrete class (one default present, one absent) *)
+Example C02_class_text_example :
+  let doc := s2l "Acquire from the official tensorflow_datasets model zoo" in
+  let ps := [(s2l "dataset_name", {| ClassFmt.cp_typ := Some (s2l "str"); ClassFmt.cp_doc := Some (s2l "name of dataset"); ClassFmt.cp_default := Some (s2l "'mnist'") |});
+             (s2l "as_numpy", {| ClassFmt.cp_typ := Some (s2l "Optional[bool]"); ClassFmt.cp_doc := Some (s2l "Convert to numpy ndarrays"); ClassFmt.cp_default := None |})] in
+  RestDocProofs.clean doc = true /\ RestDocIndentProofs.one_line doc = true /\ forallb ClassFmtProofs.cparam_ok ps = true
+  /\ ClassFmt.class_docstring doc ps
+     = [NL] ++ RestDoc.TAB ++ doc ++ [NL] ++ RestDoc.TAB ++ [NL] ++ RestDoc.TAB ++ s2l ":cvar dataset_name: name of dataset"
+       ++ [NL] ++ RestDoc.TAB ++ s2l ":cvar as_numpy: Convert to numpy ndarrays"
+  /\ ClassFmt.parse_class (ClassFmt.emit_class doc ps) = (doc, ps).
+Proof. vm_compute. repeat split; reflexivity. Qed.
